@@ -47,3 +47,13 @@ void* w_opts_vec(options* o, int i)
   return 0;
 }
 }
+extern "C" {
+// options set by the command line parser that main() itself tests
+void w_opts_set_misc(options* o, const bool* b)
+{
+  o->display_usage = b[0]; o->display_version = b[1]; o->missing_operand = b[2]; o->show_symtabs = b[3];
+  o->fail_no_debug_info = b[4]; o->show_stats = b[5]; o->do_log = b[6]; o->drop_private_types = b[7];
+  o->linux_kernel_mode = b[8];
+}
+std::string* w_opts_file(options* o, int i) { return i == 0 ? &o->file1 : i == 1 ? &o->file2 : &o->wrong_option; }
+}
